@@ -1335,6 +1335,11 @@ func (r *Replica) applyWALSegmentsV3(ctx context.Context, client ReplicaClientV3
 				return err
 			}
 			expectedIndex++
+		} else if seg.Index != expectedIndex-1 {
+			// A continuation segment must belong to the WAL index that is
+			// currently being rebuilt; otherwise the first segment of its own
+			// index is missing, even if its offset happens to match.
+			return fmt.Errorf("missing WAL segment: expected %d/%d, got %d/%d", expectedIndex-1, offset, seg.Index, seg.Offset)
 		} else if seg.Offset != offset {
 			return fmt.Errorf("missing WAL segment: expected %d/%d, got %d/%d", seg.Index, offset, seg.Index, seg.Offset)
 		}
